@@ -17,10 +17,13 @@ CATEGORY = {"C14": "fault_enumeration"}
 CLAIMED = {
     # id: (technique, level text, design ref)
     "C01": ("runtime monitor: ground-truth generator (side-channel truth of every written citation) vs. "
-            "get_citations; database-exhaustive literal forms + regex-parse-tree members of every pattern",
+            "get_citations; database-exhaustive literal forms, members of reporters-db's own templates (expanded without "
+            "the library's pattern builder), statute templates written literally, regex-parse-tree members of every pattern",
             "Exact-component oracle held on every standard reporter string of the database in both minimal forms, "
-            "one/eight members of every pattern, all DB examples and N rich forms; known finding: parallel reporter "
-            "containing a parenthesis.", "§4/C01"),
+            "members of every database template and of every library pattern, all DB examples and N rich forms "
+            "(full/parallel/short/supra/id./journal/statute/antecedent/bare pairs/scenario documents); open findings: "
+            "parallel reporter containing a parenthesis, parenthetical containing a special token after "
+            "string-scanned forms, string cite after a closed citation taken as parallel.", "§4/C01"),
     "C13": ("runtime monitor: lossless-filter oracle (compiled regex as judge) on members sampled from every "
             "extractor pattern + token-stream differential AC vs reference tokenizer on full and custom lists",
             "Every one of the ~6,800 patterns sampled; regular-language inclusion itself is static and only decided "
@@ -29,12 +32,14 @@ CLAIMED = {
             "genuineness validator + cache fault enumeration in journaled worker interpreters",
             "Fault enumeration for the cache clause (truncation lengths, header bits, body bytes, garbage, append, "
             "crash during write, concurrent construction; small and full database); exploration for the "
-            "drop-in clause; known finding: citations touching a multi-byte character.", "§4/C14"),
+            "drop-in clause (documents, edge fragments, branch- and class-member coverage of every pattern); open "
+            "findings: non-ASCII character inside a character class of a database pattern, leftmost-start reporting.", "§4/C14"),
     "C15": ("runtime monitor: history checker over (process, hash seed, thread, call index) events - fresh "
             "interpreters per PYTHONHASHSEED, call-order permutations with snapshots, threads under "
             "sys.monitoring yield injection",
-            "All serialisations of each (text, options) equal across 8/40 hash seeds, repeated calls and N threaded "
-            "calls with M forced switches at K distinct source lines.", "§4/C15"),
+            "All serialisations of each (text, options) equal across 8/40 processes (hash seeds; the odd ones also "
+            "walk the corpus in their own order), repeated calls incl. after the caller changed the returned list, "
+            "cold-first processes and N threaded calls with M forced switches at K distinct source lines.", "§4/C15"),
     "C16": ("runtime monitor: equality/hash/Resource oracle against an independent key, exhaustive over the "
             "database's (edition, variation) pairs + all pairs of generated pools + normal-form round trip",
             "Exhaustive for the standard-template variation pairs of the installed reporters-db; pools sampled.",
@@ -56,7 +61,9 @@ CLAIMED = {
             "Held on N observed result lists and M merge histories that really added references.", "§4/C03"),
     "C04": ("runtime monitor: exception-escape monitor at the three public APIs under hostile splices, "
             "all tokenizer/option/mode configurations",
-            "No exception escaped on N calls per API with every hostile fragment class spliced >= floor times.",
+            "No exception escaped on N calls per API with every hostile fragment class spliced >= floor times, "
+            "pattern-guided hostile characters inside volume/page/year/pin components, and every reporter, journal "
+            "and statute string of the database once with a year.",
             "§4/C04"),
     "C17": ("runtime monitor: substring-of-own-extent oracle on every textual metadata value",
             "Held on N metadata values incl. observed parallel-copy events and bare consecutive citations.",
@@ -65,24 +72,30 @@ CLAIMED = {
             "Held on N resource citations with boundary years in every position and multi-edition reporters "
             "from the whole database.", "§4/C18"),
     "C05": ("runtime monitor: scenario model with generator-side ground truth vs. resolve_citations(get_citations(text))",
-            "Held on N scenario documents (small scenario space enumerated exhaustively, larger ones sampled), "
-            "every reference kind and colliding reporter/volume cases observed.", "§4/C05"),
+            "Held on N scenario documents (small scenario space enumerated exhaustively, larger ones sampled; every "
+            "standard-form reporter string of the database in a fixed mini scenario with its other unambiguous "
+            "spellings), every reference kind and colliding reporter/volume cases observed.", "§4/C05"),
     "C06": ("runtime monitor: structural partition checker over exhaustively enumerated kind sequences of real "
             "extracted citation objects + extracted lists",
-            "Exhaustive for the 20-kind alphabet up to length 3 (quick) / 5 (thorough); sampled beyond.", "§4/C06"),
+            "Exhaustive for the 21-kind alphabet up to length 3 (quick) / 5 (thorough) and five focus alphabets one "
+            "step longer; sampled beyond; member pairs, hostile pairs and database-dated variation pairs.", "§4/C06"),
     "C07": ("runtime monitor: executable reference model (admissible-resource sets) vs. the real resolver on "
             "exhaustively enumerated kind sequences, pin-window boundary values and extracted lists",
-            "No inadmissible attachment on all sequences <= 3 (quick) / <= 5 (thorough) and sampled longer ones.",
+            "No inadmissible attachment on all sequences <= 3 (quick) / <= 5 (thorough), five focus alphabets one "
+            "step longer and sampled longer ones; the antecedent normaliser is a reference model inside the monitor.",
             "§4/C07"),
     "C08": ("runtime monitor: prefix-replay history checker (re-invokes resolve_citations on every prefix)",
-            "Held on every (list, cut) pair of the exhaustive enumeration and of extracted lists.", "§4/C08"),
+            "Held on every (list, cut) pair of the exhaustive enumeration and of extracted lists; a battery of short "
+            "lists resolved first and last in each process must give the same result (history).", "§4/C08"),
     "C09": ("runtime monitor: unique-sentinel strip oracle on annotate_citations over 3 modes x 2 engines x "
             "{no source, forced-alignment source, edited source} + extracted spans on marked-up documents",
-            "Held on N annotate calls per (mode, engine, source) cell, incl. empty/overlapping/unsorted spans and "
-            "observed style-tag repairs.", "§4/C09"),
+            "Held on N annotate calls per (mode, engine, source) cell, incl. empty/overlapping/unsorted spans, "
+            "observed style-tag repairs, link-style and template-metacharacter before/after strings (exactly the "
+            "passed strings are deleted) and an exhaustive (span, empty span) sweep over style-tag templates.", "§4/C09"),
     "C10": ("runtime monitor: exact expected-output oracle under the forced-alignment construction + "
             "exactly-once/in-order oracle without source + full offset sweep of SpanUpdater.update",
-            "Held on N forced-alignment cases with annotations adjacent to inserted material on both sides and "
+            "Held on N forced-alignment cases with annotations adjacent to inserted material on both sides "
+            "(default engine; both engines, twice, and skip/wrap on balanced slices for unique-character texts) and "
             "M string pairs swept over every offset.", "§4/C10"),
     "C11": ("runtime monitor: lxml well-formedness + text-content judge on skip/wrap output over generated "
             "element trees and marked-up legal documents",
